@@ -209,7 +209,8 @@ class MTr:
             val = self._expr(v, env2, p2)
             self.n = n0
             probes.append((p2, val))
-        if all(not p for p, _ in probes):
+        # reads of the machine state are not effects: only operands that consume events / change state need the short-circuit combinators
+        if all(all(ln.endswith("<- get_st ;;") for ln in p) for p, _ in probes):
             vals = [self._expr(v, env, pre) for v in e.values]
             if all(v.ty == "bool" for v in vals):
                 op = "andb" if isinstance(e.op, ast.And) else "orb"
